@@ -162,7 +162,7 @@ func genName(t *rapid.T) string {
 	case 7:
 		return rapid.StringN(0, 8, 16).Draw(t, "arb")
 	case 8:
-		return "a\nb" // refused
+		return []string{"a\nb", "\nabc", "\n", "x\n", "a\nb", "\n" + hexline}[rapid.IntRange(0, 5).Draw(t, "nlname")] // refused
 	case 9:
 		if rapid.IntRange(0, 3).Draw(t, "long") == 0 {
 			// names whose summary line exceeds 4 KiB / 64 KiB buffers
